@@ -75,7 +75,7 @@ func (r *beRun) modeTTL() {
 	for i := range r.sc.Root {
 		op := &r.sc.Root[i]
 
-		time.Sleep(time.Duration(1 + i)) // strictly increasing clock between operations
+		r.rootSleep(time.Duration(1 + i)) // strictly increasing clock between operations
 
 		rec := r.exec(0, i, op)
 		t := rec.invT
@@ -123,7 +123,7 @@ func (r *beRun) modeTTL() {
 				continue
 			}
 
-			time.Sleep(20 * 365 * 24 * time.Hour)
+			r.rootSleep(20 * 365 * 24 * time.Hour)
 
 			if v, err := r.bk.read(ctx, []byte(rec.key)); err != nil || v != interface{}(rec.tok) {
 				bad("R2", class, "never-expiring entry %q read 20 years later gives (%v, %v)", rec.key, v, err)
@@ -159,7 +159,7 @@ func (r *beRun) modeTTL() {
 			// R3: reads strictly before the instant are fresh ...
 			if exp-1 > now {
 				out.fault("clock_jump")
-				time.Sleep(time.Duration(exp - 1 - now))
+				r.rootSleep(time.Duration(exp - 1 - now))
 			}
 
 			if v, err := r.bk.read(ctx, []byte(rec.key)); err != nil || v != interface{}(rec.tok) {
@@ -172,7 +172,7 @@ func (r *beRun) modeTTL() {
 		}
 
 		if now = time.Now().UnixNano(); now <= exp {
-			time.Sleep(time.Duration(exp + 1 - now))
+			r.rootSleep(time.Duration(exp + 1 - now))
 		}
 
 		// ... and reads after it report ErrExpired with the same instant.
@@ -414,7 +414,7 @@ func (r *beRun) modeJanitor() {
 		op := &r.sc.Root[i]
 
 		if op.Kind != "sleep" {
-			time.Sleep(1)
+			r.rootSleep(1)
 
 			if !pump() {
 				return
@@ -587,7 +587,7 @@ func (r *beRun) modeEvict() {
 		op := &r.sc.Root[i]
 
 		if op.Kind != "sleep" {
-			time.Sleep(time.Duration(1000 + i)) // distinct serve instants
+			r.rootSleep(time.Duration(1000 + i)) // distinct serve instants
 
 			rec := r.exec(0, i, op)
 
@@ -896,4 +896,12 @@ func (r *beRun) oracleC11Conc() {
 
 	out.NonTrivial = cycles > 0 && len(r.recs) > 0
 	out.Outcome = fmt.Sprintf("conc cycles=%d ops=%d", cycles, len(r.recs))
+}
+
+// rootSleep advances the bubble clock from the root and waits until every task that a timer woke
+// at the new instant has re-parked, so that what the root reads next (task counters, library
+// state) does not depend on how fast those goroutines got there.
+func (r *beRun) rootSleep(d time.Duration) {
+	time.Sleep(d)
+	r.e.s.SettleRoot()
 }
